@@ -1,6 +1,9 @@
 import I18n.Lemmas.MsgTags
 import I18n.Lemmas.MsgFlagRules
 import I18n.Lemmas.MsgLive
+import I18n.Lemmas.MsgRangeCount
+import I18n.Lemmas.MsgRegex
+import I18n.Lemmas.MsgFormatDecl
 /-
 C16 — message-level diagnostics match their documented conditions.
 
@@ -663,6 +666,69 @@ theorem xml_gate_pin :
 theorem checker_keys_pin :
     Generated.StringFormats.formatCheckerKeys = [lit "c", lit "perl-brace", lit "python", lit "python-brace"] ∧
     Generated.StringFormats.formatCheckerKeys.all liveFlagEnv.isFormat = true := by decide
+
+/-! ## the scanners that stand for the regexes, and the flag shapes, declaratively -/
+
+/-- `duplicate-message-flag`, entirely about the flag list: a non-empty flag that is not a valid range flag occurs more than
+    once, or all valid range flags designate one range and there are (with multiplicity) at least two of them -/
+theorem duplicate_message_flag_decl_iff (env : FlagEnv) (e : Entry) :
+    has .duplicateMessageFlag (flagTags env e) = true ↔
+      (∃ f ∈ e.flags, e.flags.count f > 1 ∧ f ≠ [] ∧ rangeOf env f = none) ∨
+      (∃ r, (∃ f ∈ e.flags, rangeOf env f = some r) ∧ (∀ g ∈ e.flags, ∀ r', rangeOf env g = some r' → r' = r) ∧
+        (e.flags.countP fun f => decide (rangeOf env f = some r)) > 1) := by
+  rw [duplicate_message_flag_iff, range_duplicate_iff]
+
+/-- a conflict marker is a line `#-#-#-#-#  ` + one or more characters + `  #-#-#-#-#` (lines = `\n`-separated pieces);
+    the first such line is what `search_for_conflict_marker` returns (for the regenerated pattern) -/
+theorem conflict_marker_line_iff (xml : Str → XmlVerdict) (s line : Str) :
+    (liveEnv xml).searchMarker s = some line ↔
+      ∃ before after, splitLines s = before ++ line :: after ∧
+        (∃ m, m ≠ [] ∧ line = lit "#-#-#-#-#  " ++ m ++ lit "  #-#-#-#-#") ∧
+        ∀ l ∈ before, ¬∃ m, m ≠ [] ∧ l = lit "#-#-#-#-#  " ++ m ++ lit "  #-#-#-#-#" := by
+  have h := searchMarker_eq_some Generated.StringFormats.conflictPrefix Generated.StringFormats.conflictSuffix s line
+  rw [conflict_marker_pin.1, conflict_marker_pin.2] at h
+  exact h
+
+/-- the lines: joined by `\n` they give the text back, and none contains `\n` -/
+theorem lines_spec (s : Str) : [10].intercalate (splitLines s) = s ∧ ∀ l ∈ splitLines s, 10 ∉ l := splitLines_spec s
+
+/-- a valid `range:` flag (for the regenerated syntax): after `range:` and blanks (` \t\r\f\v`) on both sides,
+    `<digits>..<digits>` in ASCII digits, and min < max -/
+theorem range_flag_grammar (f : Str) (i j : Nat) :
+    parseRange liveFlagEnv f = some (i, j) ↔
+      ∃ d₁ d₂, strip [32, 9, 13, 12, 11] (f.drop 6) = d₁ ++ lit ".." ++ d₂ ∧ d₁ ≠ [] ∧ d₂ ≠ [] ∧
+        d₁.all isAsciiDigit = true ∧ d₂.all isAsciiDigit = true ∧ i = decVal d₁ ∧ j = decVal d₂ ∧ i < j := by
+  have hsep : liveFlagEnv.rangeSep = lit ".." := flag_syntax_pin.2.1
+  have hstrip : liveFlagEnv.rangeStrip = [32, 9, 13, 12, 11] := flag_syntax_pin.2.2.1
+  have hpre : liveFlagEnv.rangePrefix.length = 6 := by decide
+  simp only [parseRange, hsep, hstrip, hpre]
+  have hm := fun a b => matchRange_eq_some (lit "..") (strip [32, 9, 13, 12, 11] (f.drop 6)) a b ⟨46, [46], by decide, by decide⟩
+  constructor
+  · intro h
+    split at h
+    · rename_i a b hab
+      split at h
+      · rename_i hlt
+        simp only [Option.some.injEq, Prod.mk.injEq] at h
+        obtain ⟨rfl, rfl⟩ := h
+        obtain ⟨d₁, d₂, h1, h2, h3, h4, h5, h6, h7⟩ := (hm a b).mp hab
+        exact ⟨d₁, d₂, h1, h2, h3, h4, h5, h6, h7, hlt⟩
+      · cases h
+    · cases h
+  · rintro ⟨d₁, d₂, h1, h2, h3, h4, h5, h6, h7, hlt⟩
+    have := (hm i j).mpr ⟨d₁, d₂, h1, h2, h3, h4, h5, h6, h7⟩
+    simp [this, hlt]
+
+/-- a flag classified as a format flag IS `<prefix><fmt>-format` with `<fmt>` in data/string-formats and the prefix one of
+    `no-`, `possible-`, `impossible-` or none (regenerated tables; the kind is the prefix without its dash) -/
+theorem format_flag_shape_live {f tp fmt : Str} (h : flagKind liveFlagEnv f = .format tp fmt) :
+    ∃ p ∈ [lit "no-", lit "possible-", lit "impossible-", []], f = p ++ fmt ++ lit "-format" ∧
+      liveFlagEnv.isFormat fmt = true ∧ tp = rstrip [45] p := by
+  have hempty : liveFlagEnv.isFormat [] = false := by decide
+  obtain ⟨p, hp, h1, h2, h3⟩ := format_flag_shape hempty h
+  refine ⟨p, ?_, h1, h2, h3⟩
+  have : liveFlagEnv.prefixes = [lit "no-", lit "possible-", lit "impossible-", []] := flag_syntax_pin.2.2.2.2.2.1
+  rw [← this]; exact hp
 
 /-! ## non-vacuity -/
 
